@@ -15,7 +15,7 @@ def tag(md, prefix):
     return -1
 
 
-def decorate(tables, rng, n_ind=3, n_pop=2, p_ind=0.6, p_pop=0.6, edge_metadata=True):
+def decorate(tables, rng, n_ind=3, n_pop=2, p_ind=0.6, p_pop=0.6, edge_metadata=True, ind_parents=False, extra_flags=False):
     """tag every row's metadata; add individuals / populations and reference them from nodes"""
     t = tables
     t.nodes.packset_metadata([b"n%d" % i for i in range(len(t.nodes))])
@@ -34,6 +34,23 @@ def decorate(tables, rng, n_ind=3, n_pop=2, p_ind=0.6, p_pop=0.6, edge_metadata=
     pop = np.array([rng.randrange(n_pop) if n_pop and rng.random() < p_pop else -1 for _ in range(N)], dtype=np.int32)
     t.nodes.individual = ind
     t.nodes.population = pop
+    if ind_parents and n_ind > 1:
+        # an acyclic pedigree stored in arbitrary row order (parents may come after their children)
+        birth = list(range(n_ind))
+        rng.shuffle(birth)
+        rank = {j: i for i, j in enumerate(birth)}
+        par = []
+        for j in range(n_ind):
+            older = [q for q in range(n_ind) if rank[q] < rank[j]]
+            k = rng.randint(0, min(2, len(older)))
+            par.append(np.array(rng.sample(older, k) + ([-1] if rng.random() < 0.2 else []), dtype=np.int32))
+        t.individuals.packset_parents(par)
+    if extra_flags:
+        fl = t.nodes.flags.copy()
+        for u in range(len(fl)):
+            if rng.random() < 0.3:
+                fl[u] |= rng.choice([2, 4, 1 << 16])
+        t.nodes.flags = fl
     return t
 
 
@@ -68,5 +85,6 @@ def abstract_of(tables, cmap, tmap, tscale=1):
         migs=[dict(left=cmap.back(g.left), right=cmap.back(g.right), node=int(g.node), source=int(g.source), dest=int(g.dest),
                    time=int(round(tmap.back(g.time) * tscale)), tag=tag(g.metadata, "g")) for g in t.migrations],
         ind_parents=[[int(p) for p in r.parents] for r in t.individuals],
+        ind_parent_tags=[[itags[p] if 0 <= p < len(itags) else -1 for p in r.parents] for r in t.individuals],
     )
     return a
